@@ -38,6 +38,9 @@ func (k c10Key) config() auth.Config {
 func (k c10Key) token() string {
 	d := e4.TokenDesc{Alg: "HS256", Key: "configured", Tamper: "none", Exp: "future", Nbf: "absent", Aud: "absent", Iss: "absent", Secret: k.Secret}
 	switch k.Kind {
+	case "hmac-empty":
+		// signed with the zero-length key: what an unset hmac_secret_key loads as
+		d.Key, d.Secret = "empty", ""
 	case "rsa":
 		d.Alg, d.Secret = "RS256", ""
 	case "ecdsa":
@@ -53,6 +56,7 @@ func c10MixedTenants(run *evid.Run, evals, nontrivial *int, mu *sync.Mutex) {
 		"t-hmac":        {"hmac", "tenant-hmac-secret-aaaaaaaaaaaaaaaaaaaaa"},
 		"t-rsa":         {Kind: "rsa"},
 		"t-ecdsa":       {Kind: "ecdsa"},
+		"empty-hmac":    {Kind: "hmac-empty"},
 	}
 	type table struct {
 		Default string
@@ -78,7 +82,7 @@ func c10MixedTenants(run *evid.Run, evals, nontrivial *int, mu *sync.Mutex) {
 		if err != nil {
 			evid.Fatal("start mixed tenant node %+v: %v", tb, err)
 		}
-		signers := []string{"default-hmac", "default-ecdsa", "t-hmac", "t-rsa"}
+		signers := []string{"default-hmac", "default-ecdsa", "t-hmac", "t-rsa", "empty-hmac"}
 		for _, signer := range signers {
 			tok := keys[signer].token() // one token string per signer, replayed under every header
 			// the header list is walked twice: the second pass replays the token
@@ -91,7 +95,7 @@ func c10MixedTenants(run *evid.Run, evals, nontrivial *int, mu *sync.Mutex) {
 				same := func(a, b string) bool {
 					return a == b || (keys[a].Kind == "ecdsa" && keys[b].Kind == "ecdsa")
 				}
-				want := hdr != "" && same(hdr, signer)
+				want := hdr != "" && hdr != "t-unknown" && signer != "empty-hmac" && same(hdr, signer)
 				p := c10Probe{Kind: "tenant-mixed", Table: append([]string{"default=" + tb.Default}, tb.Tenants...), SignedBy: signer, Header: hdr}
 				mu.Lock()
 				*evals++
